@@ -7,6 +7,7 @@ import (
 	"fmt"
 	"go/types"
 	"math/big"
+	"strings"
 
 	"golang.org/x/tools/go/ssa"
 )
@@ -162,7 +163,7 @@ func addBigIntrinsics(m map[string]intrinsic) {
 			panic(goPanic{msg: "division by zero", site: e.curSite})
 		}
 		if y.C == nil {
-			if e.branch(&BoolV{T: "(= " + y.T + " 0)"}) {
+			if e.branch(bigIsZero(y)) {
 				panic(goPanic{msg: "division by zero", site: e.curSite})
 			}
 		}
@@ -174,7 +175,7 @@ func addBigIntrinsics(m map[string]intrinsic) {
 		if x.C != nil && y.C != nil && y.C.Sign() != 0 {
 			return e.setBig(args[0], cbig(new(big.Int).Rem(x.C, y.C)))
 		}
-		if e.branch(&BoolV{T: "(= " + y.T + " 0)"}) {
+		if e.branch(bigIsZero(y)) {
 			panic(goPanic{msg: "division by zero", site: e.curSite})
 		}
 		t := fmt.Sprintf("(ite (>= %s 0) (mod %s %s) (- (mod (- %s) %s)))", x.T, x.T, y.T, x.T, y.T)
@@ -185,7 +186,7 @@ func addBigIntrinsics(m map[string]intrinsic) {
 		if x.C != nil && y.C != nil && y.C.Sign() != 0 {
 			return e.setBig(args[0], cbig(new(big.Int).Div(x.C, y.C)))
 		}
-		if e.branch(&BoolV{T: "(= " + y.T + " 0)"}) {
+		if e.branch(bigIsZero(y)) {
 			panic(goPanic{msg: "division by zero", site: e.curSite})
 		}
 		return e.setBig(args[0], &BigV{T: "(div " + x.T + " " + y.T + ")"})
@@ -198,7 +199,7 @@ func addBigIntrinsics(m map[string]intrinsic) {
 			e.setBig(args[0], cbig(q))
 			return &TupleV{E: []Value{args[0], args[3]}}
 		}
-		if e.branch(&BoolV{T: "(= " + y.T + " 0)"}) {
+		if e.branch(bigIsZero(y)) {
 			panic(goPanic{msg: "division by zero", site: e.curSite})
 		}
 		e.setBig(args[3], &BigV{T: "(mod " + x.T + " " + y.T + ")"})
@@ -233,11 +234,21 @@ func addBigIntrinsics(m map[string]intrinsic) {
 			}
 			return e.setBig(args[0], cbig(new(big.Int).Sqrt(x.C)))
 		}
+		if base, ok := squareOf(x.T); ok {
+			// floor(sqrt(t*t)) = |t| exactly
+			e.stub("model:big.Sqrt(perfect square)")
+			return e.setBig(args[0], &BigV{T: "(abs " + base + ")"})
+		}
 		if e.branch(&BoolV{T: "(< " + x.T + " 0)"}) {
 			panic(goPanic{msg: "square root of negative number", site: e.curSite})
 		}
+		key := "sqrt#" + x.T
+		if v, ok := e.lazyMemo[key]; ok {
+			return e.setBig(args[0], v.(*BigV))
+		}
 		s := e.fresh("sqrt", "Int")
 		e.assume(fmt.Sprintf("(and (>= %s 0) (<= (* %s %s) %s) (< %s (* (+ %s 1) (+ %s 1))))", s, s, s, x.T, x.T, s, s))
+		e.lazyMemo[key] = &BigV{T: s}
 		return e.setBig(args[0], &BigV{T: s})
 	}
 	m["(*math/big.Int).BitLen"] = func(e *Exec, fn *ssa.Function, args []Value) Value {
@@ -363,7 +374,8 @@ func (e *Exec) bitLen(x *BigV) Value {
 	b := e.fresh("bitlen", "Int")
 	abs := "(abs " + x.T + ")"
 	e.assume(fmt.Sprintf("(and (>= %s 0) (= (= %s 0) (= %s 0)))", b, b, x.T))
-	for _, c := range bitLenAnchors {
+	anchors := append(append([]int{}, bitLenAnchors...), e.cfg.BitLenExtra...)
+	for _, c := range anchors {
 		e.assume(fmt.Sprintf("(= (>= %s %d) (>= %s %s))", b, c, abs, pow2(c-1)))
 	}
 	e.assume(fmt.Sprintf("(< %s 16384)", b))
@@ -371,4 +383,42 @@ func (e *Exec) bitLen(x *BigV) Value {
 	e.lazyMemo[key] = v
 	e.stub("model:big.BitLen(anchored)")
 	return v
+}
+
+func bigIsZero(y *BigV) *BoolV {
+	if y.C != nil {
+		return cbool(y.C.Sign() == 0)
+	}
+	return &BoolV{T: "(= " + y.T + " 0)"}
+}
+
+// squareOf recognises the term (* T T).
+func squareOf(t string) (string, bool) {
+	if !strings.HasPrefix(t, "(* ") || !strings.HasSuffix(t, ")") {
+		return "", false
+	}
+	body := t[3 : len(t)-1]
+	if len(body)%2 != 1 {
+		return "", false
+	}
+	h := len(body) / 2
+	if body[h] != ' ' || body[:h] != body[h+1:] {
+		return "", false
+	}
+	// the halves must be balanced terms
+	d := 0
+	for _, c := range body[:h] {
+		if c == '(' {
+			d++
+		} else if c == ')' {
+			d--
+			if d < 0 {
+				return "", false
+			}
+		}
+	}
+	if d != 0 {
+		return "", false
+	}
+	return body[:h], true
 }
